@@ -37,6 +37,8 @@ func (o *c04Oracle) covered(d Day) bool {
 	switch f.Kind {
 	case "end-early":
 		return d <= f.Day
+	case "torn-tail":
+		return d < f.Day // the record of f.Day is cut in half
 	case "start-late":
 		return d >= f.Day
 	case "gap":
@@ -244,6 +246,15 @@ func (o *c04Oracle) Finish(out *RunOutcome, res *Result) {
 			o.hit("reach.gap-outside-period-rejected")
 			return
 		}
+		if w.WxFault != nil && w.WxFault.Kind == "torn-tail" {
+			// the file is cut in the middle of a record behind the simulated period: the run may give up (error, panic) or
+			// complete - then on the records of its dates, which the consumption oracles above have checked
+			o.hit("fault.torn-tail")
+			if out.Success {
+				o.hit("reach.torn-tail-behind-the-period-tolerated")
+			}
+			return
+		}
 		if !out.Success && out.Panic == "" {
 			o.violate("coverage", "covered-run-fails", 0, "the weather input covers every simulated day, yet the run ended with: "+out.Err, nil)
 		}
@@ -348,6 +359,20 @@ func init() {
 				if f.Day > ws.LastDay-1 {
 					f.Day = ws.LastDay - 1
 				}
+				if r.Bool(0.12) {
+					// a file cut in the middle of a record, mostly behind the simulated period
+					f.Kind = "torn-tail"
+					f.Day = end + Day(r.Range(3, 300))
+					if r.Bool(0.25) {
+						f.Day = pos()
+					}
+					if f.Day > ws.LastDay-1 {
+						f.Day = ws.LastDay - 1
+					}
+					if f.Day < ws.FirstDay+2 {
+						f.Day = ws.FirstDay + 2
+					}
+				}
 				if f.Kind == "delete-at" {
 					f.Day = start + Day(r.Range(0, span))
 					f.Year = start.Year() + r.Range(0, end.Year()-start.Year()+1)
@@ -369,7 +394,7 @@ func init() {
 			return res.Stats["reach.year-rollover"] > 0 || res.Stats["reach.uncovered-run-ended-with-error"] > 0
 		},
 		Rule:      "one generated world per evaluation: a weather world (map date -> record) materialised in one of the three layouts, any first day, 1-40 years, sentinels in optional columns (biased to 31 Dec / 1 Jan / leap day), wind below the floor, series starting before the start year; 45 % carry one input fault (series ends early, starts late, has a gap, a year file is missing, a year file disappears at a simulated date). The values the model holds for each simulated day are compared with the record of that date; the echo in the daily result file likewise; a run whose input does not cover a simulated day must end with an error and write no record on or after that day; a covered run must succeed. Non-trivial = the run crossed a year boundary or ended with the demanded error",
-		ReachKeys: []string{"reach.year-rollover", "reach.leap-day-366", "reach.sentinel-filled", "reach.sentinel-at-year-boundary", "reach.wind-below-floor", "reach.precipitation-correction", "reach.series-starts-before-start-year", "reach.uncovered-run-ended-with-error", "fault.end-early", "fault.start-late", "fault.gap", "fault.year-missing", "fault.year-empty", "fault.delete-at", "fault.year-file-deleted-mid-run"},
+		ReachKeys: []string{"reach.year-rollover", "reach.leap-day-366", "reach.sentinel-filled", "reach.sentinel-at-year-boundary", "reach.wind-below-floor", "reach.precipitation-correction", "reach.series-starts-before-start-year", "reach.uncovered-run-ended-with-error", "fault.end-early", "fault.start-late", "fault.gap", "fault.year-missing", "fault.year-empty", "fault.delete-at", "fault.year-file-deleted-mid-run", "fault.torn-tail"},
 		Assumptions: []string{
 			"invalid-status scenarios are the fault population (a run that ends with the demanded error); they are checked, not skipped",
 			"wind: raw value or max(raw, 0.5) accepted (the floor is applied where wind is consumed)",
